@@ -1,5 +1,5 @@
 (* C10 — Listed schedules decode exactly; a created schedule reads back unchanged *)
-Require Import AS.Base.Prelude AS.Base.Hex AS.Base.Dec AS.Gen.Extracted AS.Model.ScheduleTools AS.Model.NextRun AS.Model.ScheduleParser AS.Spec.Encoders AS.Proofs.ScheduleParserProofs.
+Require Import AS.Base.Prelude AS.Base.Hex AS.Base.Dec AS.Gen.Extracted AS.Model.ScheduleTools AS.Model.NextRun AS.Model.ScheduleParser AS.Spec.Encoders AS.Proofs.ScheduleParserProofs AS.Proofs.ScheduleListProofs.
 
 (* one whole record, every zone table: id, recurrence, day set, local start and end are what the record holds *)
 Local Open Scope N_scope.
@@ -36,3 +36,29 @@ Proof. exact (schedule_region hdr body tail). Qed.
 Print Assumptions C10_region.
 Local Close Scope N_scope.
 
+
+(* list level, every zone table: a reply holding whole records is parsed record by record, the first record of a slot id wins *)
+Local Open Scope N_scope.
+Theorem C10_list lu ln z now hdr recs tail :
+  length hdr = 45%nat -> length tail = 4%nat -> (forall r, In r recs -> length r = 16%nat) ->
+  get_schedules lu ln z now (encode_schedules_reply hdr recs tail) = parse_all lu ln z now recs.
+Proof. exact (get_schedules_of_records lu ln z now hdr recs tail). Qed.
+Print Assumptions C10_list.
+Theorem C10_one_schedule_per_slot lu ln z now recs l : parse_all lu ln z now recs = Ok l -> NoDup (map sc_id l).
+Proof. exact (parsed_ids_are_distinct lu ln z now recs l). Qed.
+Print Assumptions C10_one_schedule_per_slot.
+Theorem C10_first_record_wins lu ln z now recs parsed :
+  Forall2 (fun r s => parse_schedule lu ln z now (hexlify r) = Ok s) recs parsed ->
+  parse_all lu ln z now recs = Ok (first_per_id [] parsed).
+Proof. exact (parse_all_ok lu ln z now recs parsed). Qed.
+Print Assumptions C10_first_record_wins.
+(* every whole record with a day mask of 0 or a decodable one parses (duration and display never fail on decoded clock texts) to
+   its id, recurrence flag, day set and local start / end *)
+Theorem C10_record_always_parses z now id en mask st s e t0 t1 t2 t3 ds :
+  id < 256 -> mask < 256 -> s < 4294967296 -> e < 4294967296 ->
+  (mask = 0 /\ ds = [] \/ mask <> 0 /\ bit_summary_to_days mask = Ok ds) ->
+  exists dur disp, parse_schedule false false z now (hexlify (record id en mask st s e t0 t1 t2 t3)) =
+    Ok {| sc_id := str_N id; sc_recurring := negb (mask =? 0); sc_days := ds; sc_start := fmt_hm z s; sc_end := fmt_hm z e;
+          sc_duration := dur; sc_display := disp |}.
+Proof. exact (record_parses z now id en mask st s e t0 t1 t2 t3 ds). Qed.
+Print Assumptions C10_record_always_parses.
